@@ -30,8 +30,20 @@ var alphabet []partlib.Op
 func build(path []partlib.Op) (*wld, string, string) {
 	w := &wld{r: partlib.NewReplica(), ref: idxlib.Ref{}}
 	for i, o := range path {
-		want := partlib.RefApply(w.ref, o)
-		got, aerr, pan := w.r.Apply(i, partlib.Entry(o, partlib.NotifID(i)), partlib.IsBatch(o))
+		want, got := partlib.Outcome(""), partlib.Outcome("")
+		var aerr error
+		var pan interface{}
+		if partlib.IsRestore(o) {
+			// not an entry: the replica hands its state to another one through a snapshot; nothing may change
+			nr, err := partlib.DoRestore(w.r, o)
+			if err != nil {
+				return w, "restore-error", fmt.Sprintf("%v: %v", o, err)
+			}
+			w.r = nr
+		} else {
+			want = partlib.RefApply(w.ref, o)
+			got, aerr, pan = w.r.Apply(i, partlib.Entry(o, partlib.NotifID(i)), partlib.IsBatch(o))
+		}
 		if pan != nil {
 			return w, "apply-panic", fmt.Sprintf("applying %v panicked: %v", o, pan)
 		}
@@ -67,8 +79,8 @@ func main() {
 			ev.Tool("%v", err)
 		}
 		json.Unmarshal(b, &f)
-		alphabet = partlib.Alphabet(true)
-		partlib.BigMetas()
+		alphabet = append(partlib.Alphabet(true), partlib.RestoreOps()...)
+		partlib.MBMetas()
 		_, k, d := build(f.Replay.Ops)
 		if k != "" {
 			fmt.Printf("VIOLATION property=C02 replay=%s\n  %s: %s\n", os.Args[2], k, d)
@@ -84,9 +96,13 @@ func main() {
 	}
 	// directed sequences on the merge boundary: an update whose own metadata is fine but whose union with the stored
 	// keys reaches / exceeds the 65535 entries a snapshot can count; single and batch forms, then ordinary follow-ups
-	partlib.BigMetas()
+	partlib.MBMetas()
 	boundary := 0
 	for _, seqn := range [][]partlib.Op{
+		// multi-byte keys and values on both sides of the byte limits (a character count would let the over-long ones through);
+		// every step followed by a hand-over through a snapshot
+		{{"ins", []partlib.ItemSpec{{0, 0, 9}}}, {"ins", []partlib.ItemSpec{{1, 1, 8}}}, {"restore-used", nil}, {"upd", []partlib.ItemSpec{{0, 1, 8}}}, {"upd", []partlib.ItemSpec{{0, 1, 11}}}, {"restore-fresh", nil}, {"upd", []partlib.ItemSpec{{0, 0, 10}}}, {"rem", []partlib.ItemSpec{{0, 0, 0}}}},
+		{{"bins", []partlib.ItemSpec{{0, 0, 8}, {1, 1, 9}, {2, 0, 10}}}, {"restore-fresh", nil}, {"bupd", []partlib.ItemSpec{{1, 0, 10}, {1, 1, 11}, {2, 0, 9}}}, {"restore-used", nil}, {"brem", []partlib.ItemSpec{{1, 0, 0}, {2, 0, 0}}}},
 		{{"ins", []partlib.ItemSpec{{0, 0, 5}}}, {"upd", []partlib.ItemSpec{{0, 1, 7}}}, {"upd", []partlib.ItemSpec{{0, 0, 4}}}, {"upd", []partlib.ItemSpec{{0, 1, 1}}}},
 		{{"ins", []partlib.ItemSpec{{0, 0, 5}}}, {"upd", []partlib.ItemSpec{{0, 1, 6}}}, {"upd", []partlib.ItemSpec{{0, 1, 1}}}, {"rem", []partlib.ItemSpec{{0, 0, 0}}}},
 		{{"ins", []partlib.ItemSpec{{0, 0, 5}}}, {"ins", []partlib.ItemSpec{{1, 1, 1}}}, {"bupd", []partlib.ItemSpec{{1, 0, 2}, {0, 1, 6}}}, {"bupd", []partlib.ItemSpec{{0, 1, 7}, {1, 1, 0}}}, {"bupd", []partlib.ItemSpec{{0, 0, 4}}}},
@@ -97,7 +113,7 @@ func main() {
 			run.Violation(k+":merge-boundary", fmt.Sprintf("%v: %s", seqn, d), map[string]interface{}{"ops": seqn})
 		}
 	}
-	alphabet = partlib.Alphabet(run.Thorough())
+	alphabet = append(partlib.Alphabet(run.Thorough()), partlib.RestoreOps()...)
 	samples := &ev.Samples{N: 5}
 	st := seq.BFS(seq.Config[*wld, partlib.Op]{
 		Depth: depth, Workers: 16, Deadline: time.Now().Add(budget),
@@ -114,7 +130,8 @@ func main() {
 		},
 	})
 	run.Assumptions = []string{
-		"ids {a,b,c}, 3 vectors in R^2, metadata shapes {absent, {k:v1}, {k:'',j:xx}, {k:longer-value}, {n:1}}; an empty metadata map is indistinguishable from an absent one on the wire",
+		"ids {a,b,c}, 3 vectors in R^2, metadata shapes {absent, {k:v1}, {k:'',j:xx}, {k:longer-value}, {n:1}}; an empty metadata map is indistinguishable from an absent one on the wire; directed sequences add 32768/32767-key maps and multi-byte keys/values on both sides of the 255 / 65535 byte limits",
+		"snapshot->restore steps (into a fresh and into a used replica) are enabled in every state: the hand-over must change neither contents nor counters",
 		"entries are marshalled PartitionChange messages fed to the partition's apply function (what the raft loop calls); the level is part of the entry",
 		"BytesSize() is only required to lie in [D, D + Len*4096] where D is the exact data byte count",
 	}
